@@ -45,7 +45,7 @@ FV(v) == [cls |-> v.cls, M |-> FromDec(v.m), e |-> v.e]
 (***************************************************************************)
 ValueProp(ev, f) == IF PFOpts(ev).lossy THEN "C19"
                     ELSE IF Radix(f) = 10 /\ ExponentBase(f) = 10 THEN "C01" ELSE "C05"
-GrammarProp(ev, sc) == IF sc.hassep THEN "C13" ELSE "C12"
+GrammarProp(ev, sc) == IF sc.hassep \/ (HasSeparator(FmtOf(ev)) /\ ContainsByte(ev.in, FmtOf(ev).digit_separator, 1)) THEN "C13" ELSE "C12"
 
 FloatValueWhy(ev, f, sc) ==
     LET r == ev.res
@@ -488,7 +488,8 @@ LossyAgreesAt(o, i) ==
 (* C13: an input without a separator byte is treated identically by a format and by its separator-free counterpart *)
 SepFreeSameAt(o, i) ==
     LET b == o[i] IN
-    (b.op = "parse" /\ HasSeparator(FmtOf(b)) /\ ~ContainsByte(b.in, FmtOf(b).digit_separator, 1) /\ ~Abnormal(b.res)) =>
+    (b.op = "parse" /\ HasSeparator(FmtOf(b)) /\ ~ContainsByte(b.in, FmtOf(b).digit_separator, 1) /\ ~Abnormal(b.res)
+       /\ ConfigValidity(b, IsFloatTy(b.ty)) = "valid") =>
     \A j \in Others(o, i) :
         LET a == o[j] IN
         (a.op = "parse" /\ a.ty = b.ty /\ a.cfg = b.cfg /\ a.api = b.api /\ a.partial = b.partial /\ a.in = b.in
